@@ -228,6 +228,12 @@ func (dir *Local) handleNode(path string, info os.FileInfo, err error) error {
 		if err == filepath.SkipDir {
 			return nil
 		}
+		if os.IsNotExist(err) {
+			// A link whose target is missing is like a file that vanished: skip
+			// it instead of failing the scan of everything else.
+			dir.debug("Local Link Target Missing:", path)
+			return nil
+		}
 		return err
 	}
 	if dir.shouldAllow != nil && !dir.shouldAllow(file) {
